@@ -71,7 +71,10 @@ func genC12(t *rapid.T) *c12Case {
 		}
 	}
 	content := rapid.SampledFrom([]string{"photo", "tiled", "tiled", "pal16", "pal256", "gradient", "noise", "sparse", "regions", "regions", "regions", "bands", "bands", "bands"}).Draw(t, "content")
-	alpha := rapid.SampledFrom([]string{"opaque", "opaque", "gradient", "binary"}).Draw(t, "alpha")
+	// channel relations (grey, green-only, red = blue): the colour-decorrelation transforms become trivial for some
+	// or all tiles, which is where "nothing to do for this worker" shortcuts live
+	content += rapid.SampledFrom([]string{"", "", "", "", "", "+grey", "+grey", "+g", "+rb"}).Draw(t, "tint")
+	alpha := rapid.SampledFrom([]string{"opaque", "opaque", "gradient", "binary", "noise", "levels"}).Draw(t, "alpha")
 	seed := rapid.Uint64().Draw(t, "seed")
 	if c.Opts.Lossless && rapid.Bool().Draw(t, "highQ") {
 		c.Opts.SetQuality(float32(rapid.IntRange(90, 100).Draw(t, "q90")))
@@ -80,9 +83,9 @@ func genC12(t *rapid.T) *c12Case {
 	c.Img.Pix = gen.RenderContent(w, h, content, alpha, seed)
 	c.Img.Colors = 300
 	all := []int{1, 2, 3, 4, 5, 6, 7, 8, 12, 16, 32, 17, 20, 24, 31, 33, 48, 64, 128}
-	n := 3
+	n := 4
 	if tierThorough() {
-		n = 6
+		n = 7
 	}
 	set := map[int]bool{1: true}
 	for len(set) < n+1 {
